@@ -45,7 +45,7 @@ Program(p) == Heads(p, 1) \o Inner(p) \o Tails(p, p.d - 1) \o <<0>>
 
 MemOf(p) == LET w == Program(p) IN [a \in Base .. Base + Len(w) - 1 |-> w[a - Base + 1]]
 Start(p) == [r |-> [ResetRegs EXCEPT !.pc = Base, !.sp = 4096], mem |-> MemOf(p), io |-> [a \in {} |-> 0], acc |-> <<>>,
-             out |-> "ok", idle |-> FALSE, lat |-> <<0, 0, 0, 0>>, vaddr |-> 0, vctx |-> 0, miu |-> [base |-> 32768, z |-> 0]]
+             out |-> "ok", idle |-> FALSE, lat |-> <<0, 0, 0, 0>>, vaddr |-> 0, vctx |-> 0, miu |-> MiuReset]
 
 \* run until the final nop is reached (or fuel runs out): [s, lcs (loop counter seen at each start of the
 \* innermost instruction), ok (machine invariants held at every step)]
